@@ -31,6 +31,7 @@ MECHANISMS = [('cgsmiles.sample', '_select_bonding_operator'), ('cgsmiles.sample
               ('cgsmiles.sample', 'MoleculeSampler.add_fragment'), ('cgsmiles.sample', 'MoleculeSampler.__init__'),
               ('cgsmiles.pysmiles_utils', 'compute_mass')]
 REQUIRED_COUNTERS = ['samples_returned', 'bonds_checked']
+CASE_TIMEOUT = 3600      # one case is a whole history with reference runs in forked processes
 SIZES = {'quick': dict(n=1900, histories=16, hist_len=6, seeds=['0', '3', 'random']),
          'thorough': dict(n=50000, histories=160, hist_len=12, seeds=['0', '1', '2', '3', '42', 'random', 'random', 'random'])}
 
@@ -168,7 +169,7 @@ def reference(jobs, hashseed):
     envv['PYTHONHASHSEED'] = hashseed
     envv['PBR_VERSION'] = '0.0.0'
     p = subprocess.run([sys.executable, '-m', 'vmon.solo'], input=json.dumps(jobs), capture_output=True, text=True,
-                       cwd=env.VERIF, env=envv, timeout=1200)
+                       cwd=env.VERIF, env=envv, timeout=3000)
     if p.returncode != 0:
         raise RuntimeError('reference runner failed: ' + p.stderr[-800:])
     return json.loads(p.stdout)
